@@ -32,11 +32,23 @@ Definition leaf_fids (p : pipeline) : list str :=
 
 Definition keep (p : pipeline) (b : list str) : pipeline := filter (fun f => mem_str (fid f) b) p.
 
+(* the drop loop: `for f in drop: pipeline.drop(f=f)`; every drop re-validates the remaining pipeline, and
+   validate_consistent_defaults can fail once a parameter is no longer fed by a (dropped) producer *)
+Definition consistent_all (p : pipeline) : bool := consistent_defaults p.
+Fixpoint drop_loop (cur : pipeline) (drop : list pfunc) : result pipeline :=
+  match drop with
+  | [] => Ok cur
+  | f :: t =>
+      let cur' := filter (fun g => negb (str_eqb (fid g) (fid f))) cur in
+      if consistent_defaults cur' then drop_loop cur' t else Err ValueError
+  end.
+
 (* Pipeline.subpipeline(inputs=I, output_names=S); S = None means "all leaf nodes" *)
 Definition subpipeline (p : pipeline) (I : list str) (S : option (list str)) : result pipeline :=
   do ins <- mapM (node_of p) I;
   do outs <- match S with Some l => mapM (node_of p) l | None => Ok (leaf_fids p) end;
-  let p' := keep p (between (graph_of p) ins outs) in
+  let b := between (graph_of p) ins outs in
+  do p' <- drop_loop p (filter (fun f => negb (mem_str (fid f) b)) p);
   if match S with Some l => negb (forallb (is_output p') l) | None => false end
   then Err ValueError                                (* a requested output did not survive *)
   else
@@ -117,7 +129,7 @@ Definition sufficientb (p : pipeline) (kw : alist) (o : str) : bool :=
 
 (* S is computable from I (using defaults and bound values) *)
 Definition computableb (p : pipeline) (I S : list str) : bool :=
-  forallb (fun o => is_output p o && negb (mem_str o I) && sufficientb p (kw_of I) o) S.
+  forallb (fun o => is_output p o && sufficientb p (kw_of I) o) S.
 
 (* every provided name is read by a needed function *)
 Definition all_readb (p : pipeline) (I S : list str) : bool :=
